@@ -281,8 +281,7 @@ class DepEngine:
         return FuncWalker(self, self.prog.func(q), force=force or {}, data_only=data_only, cut=cut).run()
 
     def result(self, q: str) -> FuncResult:
-        self.prog.func(q)
-        return self.summaries[q]
+        return self.summaries[self.prog.func(q).qname]
 
 
 class FuncWalker:
